@@ -56,8 +56,8 @@ def _case(draw):
             fr.append(0.98 - 0.96 * acc / tot)      # strictly decreasing, at least 0.96*0.05/7 apart
         c['p_fracs'] = fr
         c['ends'] = draw(st.sampled_from(['default', 'default', 'explicit', 'minus-one']))
-        c['smooth'] = draw(st.sampled_from([10, 0, 1, 5, 20, 33, 50, 100, 7.5, 3]))
-        c['fault'] = draw(st.sampled_from([None, None, None, 'inverted', 'slope', 'equal-controls']))
+        c['smooth'] = draw(st.sampled_from([10, 100, 0, 1, 5, 20, 33, 50, 100, 7.5, 3, 99]))
+        c['fault'] = draw(st.sampled_from([None, 'nearly-equal', None, 'inverted', 'slope', 'equal-controls', 'nearly-equal']))
         c['limit'] = draw(st.floats(10.0, 5000.0))
         c['inv_at'] = draw(st.floats(0.0, 0.999))
         c['inv_equal'] = draw(st.booleans())
@@ -165,6 +165,11 @@ def check(case):
             elif fault == 'equal-controls':
                 Tpts = [Ts] * len(Tpts)
                 Tt = Ts
+            elif fault == 'nearly-equal':
+                # controls within 0.5 % of each other: any smoothing artefact leaves the range
+                Tpts = [Ts * (1.0 + 0.005 * (t - 30.0) / 5970.0) for t in Tpts]
+                Tt = Ts * (1.0 + 0.005 * (Tt - 30.0) / 5970.0)
+                out.cls('nearly-equal-controls')
             kw = {}
             if c['ends'] == 'explicit':
                 kw = {'P_surface': float(P[0]) * 1.5, 'P_top': float(P[-1]) / 1.5}
